@@ -70,7 +70,7 @@ class CallMixin:
                 if node.keywords:
                     raise Unsupported("keywords with *args")
                 return self.call_value(callee, args, {}, node, env)
-            raise Unsupported("*args")
+            # other callees: eval_args expands tuples of known arity / passes an opaque tuple as one StarArg
         args, kwargs = self.eval_args(node, env)
         if isinstance(f, ast.Attribute):
             # method on super()
@@ -695,6 +695,8 @@ class CallMixin:
     def sp_cast(self, node, env):
         """cast(obj, 'Cls'): view a reference as an instance of a subclass (spec only; the clause should guard it with
         isinstance knowledge of its own)."""
+        if not (len(node.args) == 2 and isinstance(node.args[1], ast.Constant) and isinstance(node.args[1].value, str)):
+            return self.bi_cast(node, env)  # typing.cast(T, x) in the code under verification: identity
         v = self.evalv(node.args[0], env)
         if not isinstance(v.ty, TRef):
             raise Unsupported("cast of %s" % v.ty)
@@ -901,7 +903,9 @@ class CallMixin:
     def bi_sorted(self, node, env):
         """sorted(<set or list of int/bytes>): only its totality is modelled (these element types are totally ordered, so
         it cannot raise); the resulting list is left unconstrained (an over-approximation of the real result)"""
-        v = self.evalv(node.args[0], env)
+        v = self.eval(node.args[0], env)
+        if not isinstance(v, V):
+            return self._sorted_dictview(node, env, v)  # sorted(d.keys()): dictiter.py
         if len(node.args) == 1 and not node.keywords and isinstance(v.ty, (TSet, TList)):
             ety = v.ty.k if isinstance(v.ty, TSet) else v.ty.elem
             if ety in (TInt, TBytes):
